@@ -339,7 +339,7 @@ def gen_zero(rng):
 def generate(tier, rng):
     quick = tier != 'thorough'
     small = list(range(1, 8))
-    n_small, n_zero, n_mid, n_long, n_big = (70, 10, 14, 8, 3) if quick else (450, 40, 80, 40, 10)
+    n_small, n_zero, n_mid, n_long, n_big = (70, 10, 14, 8, 3) if quick else (300, 30, 50, 24, 6)
     light, heavy = [], []
     for _ in range(n_small):
         light.append(gen_call(rng, small, small, [5, 8, 10, 10, 15, 20, 20, 30]))
